@@ -33,6 +33,7 @@ type Ctx struct {
 
 	inlineErr   string
 	InlineNotes []string
+	Renamed     map[string]string // struct fields renamed back: reference name → name in the tree
 	noInline    bool
 }
 
